@@ -25,7 +25,7 @@ LEVEL_TEXT = ("Step-cases with 10^3 particles each: random steep and flat bathym
 LEVEL_NOTE = "Asserted only where |vertical displacement| < h(start cell), as the property states. Trusts the spied W as the diffusion draw (its statistics are C11)."
 RULE = ("case = direct (bathymetry seed, Dz, w, scheme, flow) or e2e (ROMS world, Dz, w). Non-trivial: some particle was reflected at the surface or at the bottom and some particle "
         "changed cell during the step; distinct by parameters.")
-MANDATORY = ["e2e_second_run_on_rewritten_shallower_files", "e2e_horizontal_diffusion_too", "e2e_forcing_files_with_other_bathymetry", "e2e_grid_module_ROMS2", "e2e_vtransform1_cells_shallower_than_hc", "reflected_at_surface", "reflected_at_bottom", "changed_cell_same_step", "start_at_surface_or_bottom", "vertical_advection", "vertical_diffusion",
+MANDATORY = ["vertical_advection_on_with_w_exactly_zero_and_diffusion", "e2e_second_run_on_rewritten_shallower_files", "e2e_horizontal_diffusion_too", "e2e_forcing_files_with_other_bathymetry", "e2e_grid_module_ROMS2", "e2e_vtransform1_cells_shallower_than_hc", "reflected_at_surface", "reflected_at_bottom", "changed_cell_same_step", "start_at_surface_or_bottom", "vertical_advection", "vertical_diffusion",
              "both_off_untouched", "steps_checked", "e2e_records_checked", "large_displacement_fraction", "e2e_subgrid_off_diagonal", "inactive_particles_reflected", "e2e_inactive_particles"]
 ASSUMPTIONS = ["|displacement| < h of the start cell (larger ones are outside the property)"]
 TIMEOUT = {"quick": 900, "thorough": 3400}
@@ -57,6 +57,8 @@ def _direct(case, V, sit, cnt):
     frac = float(10 ** rng.uniform(-6, -0.0005))  # typical |displacement| / hmin
     Dz = (frac * hmin) ** 2 / (2 * dt) / 9.0 if mode in (0, 2, 4) else 0.0  # 3 sigma ~ frac*hmin
     w = float(rng.choice([-1, 1])) * frac * hmin / dt * 0.9 if mode in (1, 2) else None
+    if mode == 2 and case["idx"] % 10 == 2:
+        w = 0.0  # vertical advection switched on in water that happens to have no vertical velocity: the random walk alone crosses the boundaries
     scheme = ["EF", "RK2", "RK4"][case["idx"] % 3]
     sp = 0.8 * 1000.0 / dt
     flow = dict(kind="jet", u=sp * float(rng.uniform(-1, 1)), v=sp * float(rng.uniform(-1, 1)), shear=0.3)
@@ -116,6 +118,8 @@ def _direct(case, V, sit, cnt):
             if w is not None:
                 disp = disp + w * dt
                 _bump(sit, "vertical_advection")
+                if w == 0.0 and Dz > 0:
+                    _bump(sit, "vertical_advection_on_with_w_exactly_zero_and_diffusion")
             # the property quantifies over start depths in [0, h]: a particle that was carried horizontally into
             # shallower water in an earlier step may already be below the bottom of its start cell (not judged)
             ok = (np.abs(disp) < hb) & (Zb >= 0) & (Zb <= hb)
